@@ -202,6 +202,32 @@ inductive Outcome
   | outOfFuel
   deriving DecidableEq, Repr
 
+/-- What the `elaborate_frame` call produced: the replacement items (None = keep), the final `hide`
+flag, and the exception saved if it raised (then: PRUNE, un-hidden). -/
+def elabOutcome (env : Env) (f : FrameRec) (next : Obj) (r : ElabRes) : Option (List Obj) × Bool × List Err :=
+  match r with
+  | .none => (none, env.elabHide f.pyframe, [])
+  | .one e =>
+    -- a hook that returns `next_inner` when that is None has returned None
+    if resolveElem next e = .none then (none, env.elabHide f.pyframe, [])
+    else (some [resolveElem next e], env.elabHide f.pyframe, [])
+  | .seq es => (some (es.map (resolveElem next)), env.elabHide f.pyframe, [])
+  | .raise e => (some [], false, [.hook e])
+
+/-- `while to_elaborate: to_unwrap.appendleft((None, *to_elaborate.pop()))` -/
+def backOf (rest : List EE) : List QE := rest.map (fun e => ⟨none, e.node, e.depth⟩)
+
+/-- Is this a replacement (as opposed to an insertion before `next_inner`)?
+`not items or items[-1] is not next_inner` -/
+def replacing (items : List Obj) (next : Obj) : Bool := items = [] || items.getLast? != some next
+
+/-- The new `to_unwrap` after a frame at depth `d` returned `items`. -/
+def requeue (env : Env) (d : Nat) (next : Obj) (items : List Obj) (rest : List EE) : List QE :=
+  if replacing items next then
+    items.map (fun o => ⟨betterOrigin env o none, o, d⟩) ++ (backOf rest).dropWhile (fun q => q.depth ≥ d)
+  else
+    items.dropLast.map (fun o => ⟨betterOrigin env o none, o, d⟩) ++ backOf rest
+
 /-- After the unwrap phase: elaborate the first pending frame, or finish. Returns either the final
 outcome or the state at the head of the next outer-loop iteration. -/
 def elabStep (env : Env) (s : St) : Sum Outcome St :=
@@ -210,29 +236,11 @@ def elabStep (env : Env) (s : St) : Sum Outcome St :=
   | ⟨.frameObj f, d⟩ :: rest =>
     let next := nextObj rest.head?
     let ctxE : List Err := if env.withContexts then (env.ctxErrs f.pyframe).map .hook else []
-    let r := env.elabFn f.pyframe (nextView rest.head?)
-    let (items?, hide, elabE) : Option (List Obj) × Bool × List Err :=
-      match r with
-      | .none => (none, env.elabHide f.pyframe, [])
-      | .one e =>
-        -- a hook that returns `next_inner` when that is None has returned None
-        if resolveElem next e = .none then (none, env.elabHide f.pyframe, [])
-        else (some [resolveElem next e], env.elabHide f.pyframe, [])
-      | .seq es => (some (es.map (resolveElem next)), env.elabHide f.pyframe, [])
-      | .raise e => (some [], false, [.hook e])
-    let s1 : St := { s with out := s.out ++ [⟨f, hide⟩], errors := s.errors ++ ctxE ++ elabE, loops := 0 }
-    match items? with
+    let r := elabOutcome env f next (env.elabFn f.pyframe (nextView rest.head?))
+    let s1 : St := { s with out := s.out ++ [⟨f, r.2.1⟩], errors := s.errors ++ ctxE ++ r.2.2, loops := 0 }
+    match r.1 with
     | none => .inr { s1 with toElab := rest }
-    | some items =>
-      -- while to_elaborate: to_unwrap.appendleft((None, *to_elaborate.pop()))
-      let back : List QE := rest.map (fun e => ⟨none, e.node, e.depth⟩)
-      let (items', back') :=
-        if items = [] || items.getLast? != some next then
-          (items, back.dropWhile (fun q => q.depth ≥ d))
-        else
-          (items.dropLast, back)
-      let queued : List QE := items'.map (fun o => ⟨betterOrigin env o none, o, d⟩)
-      .inr { s1 with toUnwrap := queued ++ back', toElab := [] }
+    | some items => .inr { s1 with toUnwrap := requeue env d next items rest, toElab := [] }
   | es =>
     -- reached a leaf: everything still pending is the leaf
     .inl (.done s.out (match es with | [e] => .one e.node | _ => .many (es.map (·.node))) s.errors)
@@ -288,28 +296,19 @@ def elabStepX (env : Env) (s : St) : Except Crash (Sum Outcome St) := do
       let d := fd.depth
       let next := nextObj rest.head?
       let ctxE : List Err := if env.withContexts then (env.ctxErrs f.pyframe).map .hook else []
-      let r := env.elabFn f.pyframe (nextView rest.head?)
-      let (items?, hide, elabE) : Option (List Obj) × Bool × List Err :=
-        match r with
-        | .none => (none, env.elabHide f.pyframe, [])
-        | .one e =>
-          if resolveElem next e = .none then (none, env.elabHide f.pyframe, [])
-          else (some [resolveElem next e], env.elabHide f.pyframe, [])
-        | .seq es => (some (es.map (resolveElem next)), env.elabHide f.pyframe, [])
-        | .raise e => (some [], false, [.hook e])
-      let s1 : St := { s with out := s.out ++ [⟨f, hide⟩], errors := s.errors ++ ctxE ++ elabE, loops := 0 }
-      match items? with
+      let r := elabOutcome env f next (env.elabFn f.pyframe (nextView rest.head?))
+      let s1 : St := { s with out := s.out ++ [⟨f, r.2.1⟩], errors := s.errors ++ ctxE ++ r.2.2, loops := 0 }
+      match r.1 with
       | none => return .inr { s1 with toElab := rest }
       | some items =>
-        let back : List QE := rest.map (fun e => ⟨none, e.node, e.depth⟩)
         -- `not items or items[-1] is not next_inner`: items[-1] is only evaluated when items is non-empty
-        let replacing ← (if items.isEmpty then pure true else do
-                           let l ← last! items
-                           pure (l != next))
-        let (items', back') :=
-          if replacing then (items, back.dropWhile (fun q => q.depth ≥ d)) else (items.dropLast, back)
-        let queued : List QE := items'.map (fun o => ⟨betterOrigin env o none, o, d⟩)
-        return .inr { s1 with toUnwrap := queued ++ back', toElab := [] }
+        let repl ← (if items.isEmpty then pure true else do
+                      let l ← last! items
+                      pure (l != next))
+        let q : List QE :=
+          if repl then items.map (fun o => ⟨betterOrigin env o none, o, d⟩) ++ (backOf rest).dropWhile (fun q => q.depth ≥ d)
+          else items.dropLast.map (fun o => ⟨betterOrigin env o none, o, d⟩) ++ backOf rest
+        return .inr { s1 with toUnwrap := q, toElab := [] }
     | _ => throw .assertion                              -- assert isinstance(frame, Frame)
   | _ =>
     -- reached a leaf:  assert not to_unwrap
